@@ -1,4 +1,4 @@
-(* C10: the default-value literal round trip and the "each once" facts. *)
+(* C10: the "each once" facts (the default-value round trip is in Proofs/TypesDefault.v). *)
 From Coq Require Import List NArith ZArith Bool Lia Permutation String.
 From GQL Require Import Base.Bytes Types.Schema Types.Consistent Types.Introspection Proofs.TypesNames.
 Import ListNotations.
@@ -28,75 +28,4 @@ Proof.
   apply perm_trans with (map dt_name (map (describe_type V D) (v_types V))).
   - apply Permutation_map. apply sort_name_perm.
   - rewrite map_map. erewrite map_ext; [apply Permutation_refl|]. intro vt. apply describe_type_name.
-Qed.
-
-(* ---------- defaults: scalars, enums, lists and non-null of them ---------- *)
-Fixpoint depth (t : tref) : nat :=
-  match t with TList t' | TNonNull t' => Datatypes.S (depth t') | _ => 0%nat end.
-
-Definition simple_leaf (ts : list vtype) (i : N) (v : value) : Prop :=
-  exists vt, vfind ts i = Some vt /\
-    match vt_def vt, v with
-    | VScalar, VInt z => vt_name vt = s "Int" /\ (-2147483648 <= z <= 2147483647)%Z
-    | VScalar, VBool _ => vt_name vt = s "Boolean"
-    | VScalar, VStr _ => vt_name vt = s "String" \/ vt_name vt = s "ID"
-    | VEnum names, VInt z => NoDup names /\ (0 < z)%Z /\ exists n, nth_error names (Z.to_nat (z - 1)) = Some n
-    | _, _ => False
-    end.
-
-Fixpoint simple (ts : list vtype) (t : tref) (v : value) : Prop :=
-  match t with
-  | TNil => False
-  | TNamed i => simple_leaf ts i v
-  | TNonNull t' => simple ts t' v
-  | TList t' => match v with VList l => Forall (simple ts t') l | _ => False end
-  end.
-
-Lemma index_of_nth : forall names n k idx, NoDup names -> nth_error names idx = Some n ->
-  index_of n names k = Some (k + Z.of_nat idx)%Z.
-Proof.
-  induction names as [|m r IH]; intros n k idx Hnd Hn; destruct idx; simpl in *; try discriminate.
-  - inversion Hn; subst. rewrite bytes_eqb_refl. f_equal. lia.
-  - inversion Hnd as [|x l Hni Hnd']; subst.
-    destruct (bytes_eqb m n) eqn:E.
-    + apply bytes_eqb_eq in E. subst. exfalso. apply Hni. exact (nth_error_In _ _ Hn).
-    + rewrite (IH n (k + 1)%Z idx Hnd' Hn). f_equal. lia.
-Qed.
-
-Lemma simple_not_null ts : forall t v, simple ts t v -> v <> VNull.
-Proof.
-  induction t as [|i|t IH|t IH]; simpl; intros v H Hv; subst; auto.
-  - destruct H as (vt & _ & H). destruct (vt_def vt); exact H.
-  - exact (IH VNull H eq_refl).
-Qed.
-
-Lemma list_round_trip {A B} (f : A -> option B) (g : B -> option A) : forall l,
-  Forall (fun x => exists y, f x = Some y /\ g y = Some x) l ->
-  all_some (map g (filter_some (map f l))) = Some l.
-Proof.
-  induction l as [|x r IH]; intros H; simpl; auto.
-  inversion H as [|x' l' (y & Hf & Hg) Hr]; subst. rewrite Hf. simpl. rewrite Hg, (IH Hr). reflexivity.
-Qed.
-
-Lemma default_round_trip ts D : forall t v fuel, simple ts t v -> (depth t < fuel)%nat ->
-  exists l, ast_from_value fuel ts t v = Some l /\ coerce fuel ts D t l = Some v.
-Proof.
-  induction t as [|i|t IH|t IH]; intros v fuel Hs Hf; simpl in Hs.
-  - contradiction.
-  - destruct fuel as [|f]; [lia|]. destruct Hs as (vt & Hv & Hk). simpl. rewrite Hv.
-    destruct (vt_def vt) as [| | | |names| |] eqn:Ed; destruct v as [|z|b|b|l|kv]; try contradiction.
-    + destruct Hk as [Hn [Hlo Hhi]]. exists (LInt z). split; auto. rewrite Hn. simpl.
-      apply Z.leb_le in Hlo. apply Z.leb_le in Hhi. rewrite Hlo, Hhi. reflexivity.
-    + exists (LStr b). split; auto. destruct Hk as [Hn|Hn]; rewrite Hn; reflexivity.
-    + exists (LBool b). split; auto. rewrite Hk. reflexivity.
-    + destruct Hk as (Hnd & Hz & n & Hn). exists (LEnum n). rewrite Hn.
-      apply Z.ltb_lt in Hz. rewrite Hz. split; auto.
-      rewrite (index_of_nth names n 1%Z _ Hnd Hn). f_equal. f_equal. apply Z.ltb_lt in Hz. lia.
-  - destruct fuel as [|f]; [lia|]. simpl in Hf. destruct v as [|z|b|b|l|kv]; try contradiction.
-    assert (Hall : Forall (fun x => exists y, ast_from_value f ts t x = Some y /\ coerce f ts D t y = Some x) l).
-    { apply Forall_forall. intros x Hx. apply IH; [exact (proj1 (Forall_forall _ _) Hs x Hx)|lia]. }
-    exists (LList (filter_some (map (ast_from_value f ts t) l))). split; [reflexivity|].
-    simpl. rewrite (list_round_trip _ _ l Hall). reflexivity.
-  - destruct fuel as [|f]; [lia|]. simpl in Hf. destruct (IH v f Hs) as (l & Ha & Hc); [lia|].
-    exists l. split; simpl; auto.
 Qed.
